@@ -20,6 +20,8 @@ LRU_CONFIGS = {
     "8": {"maxsize": 8, "typed": True},
     "inf": {"maxsize": None, "typed": True},
     "off": "off",
+    # library defaults plus re-evaluation on every hit (sim/shadow.py)
+    "shadow": "shadow",
 }
 
 _STATE = {"src": None, "lru": None, "out": None, "machines": {}}
@@ -55,6 +57,9 @@ def setup(src, lru, silence=True):
         spec.loader.exec_module(mod)
         if cfg == "off":
             mod.Cached.cache_enable = False
+        elif cfg == "shadow":
+            from . import shadow
+            shadow.install(mod)
         else:
             mod.Cached.lru_params = dict(cfg)
         sys.modules["pyunicorn.core.cache"] = mod
